@@ -78,4 +78,13 @@ META.update({
                 note="Not decided here: byte-for-byte identity of the checked-in generated files with the generators' output, and poslang.EvalPos agreement (reflection)."),
 })
 
+META.update({
+    "C14": dict(design_ref="DESIGN.md 5/C14", technique="bounded differential symbolic execution: real lexer vs an independently written reference lexer on the same symbolic bytes (z3)",
+                text="Bounded differential model checking: the real lexer and a reference lexer written from the lexical specification run on the same symbolic input; on every path both reject or both accept with equal kinds, boundaries and decoded values (byte equality by z3).",
+                note="Trusted: the reference lexer (DESIGN.md appendix C, about 300 lines, shares nothing with lexer.go) and the reserved-keyword list taken from the documentation."),
+    "C18": dict(design_ref="DESIGN.md 5/C18", technique=TECH + "; schedules are NOT explored",
+                text="Bounded model checking of the sequential footprint: for every input pair within the bound a call repeated after an unrelated call returns an identical result (tree, positions, error positions, SQL of every node), the earlier result is unchanged by later calls, results share no nodes, and no call modifies package-level state (snapshot of all memefish package variables compared after every path).",
+                note="The 'every interleaving' clause is not decided by exploration: goroutines on distinct Parser values can only interact through package-level state, which is shown never to be written; that step is an argument (DESIGN.md 5/C18, section 8), and data races on read-only initialised tables are impossible. The race detector is a different technique and is not used."),
+})
+
 NOT_APPLICABLE = {}
